@@ -552,9 +552,110 @@ fn sprinkle(rng: &mut Rng, d: &mut BD, count: usize, around: Option<usize>) {
     }
 }
 
+
+/// Independent of the crate: is square `t` attacked by a man of colour `by` in the builder state?
+pub fn bd_attacked(d: &BD, t: usize, by: Color) -> bool {
+    let (tr, tf) = ((t / 8) as i32, (t % 8) as i32);
+    let at = |r: i32, f: i32| -> Option<Option<(Piece, Color)>> {
+        if r < 0 || r >= 8 || f < 0 || f >= 8 { None } else { Some(d.sq[(r * 8 + f) as usize]) }
+    };
+    for (dr, df) in [(1, 2), (2, 1), (-1, 2), (-2, 1), (1, -2), (2, -1), (-1, -2), (-2, -1)].iter() {
+        if at(tr + dr, tf + df) == Some(Some((Piece::Knight, by))) { return true; }
+    }
+    for dr in -1..=1 {
+        for df in -1..=1 {
+            if (dr, df) != (0, 0) && at(tr + dr, tf + df) == Some(Some((Piece::King, by))) { return true; }
+        }
+    }
+    // a pawn of `by` attacks diagonally forward: it stands one rank behind the target (from its view)
+    let pr = if by == Color::White { tr - 1 } else { tr + 1 };
+    for df in [-1, 1].iter() {
+        if at(pr, tf + df) == Some(Some((Piece::Pawn, by))) { return true; }
+    }
+    for (i, (dr, df)) in [(0, 1), (1, 0), (0, -1), (-1, 0), (1, 1), (1, -1), (-1, 1), (-1, -1)].iter().enumerate() {
+        let (mut r, mut f) = (tr + dr, tf + df);
+        while let Some(x) = at(r, f) {
+            if let Some((p, c)) = x {
+                if c == by && (p == Piece::Queen || (i < 4 && p == Piece::Rook) || (i >= 4 && p == Piece::Bishop)) { return true; }
+                break;
+            }
+            r += dr; f += df;
+        }
+    }
+    false
+}
+
+/// Valid-by-construction set-ups with extreme material for one side: nine to fifteen men of one
+/// kind (ten knights, bishops or rooks = the two original ones plus eight promoted pawns; nine
+/// queens; and beyond, which the validity conditions of the properties still allow up to 16 men),
+/// sometimes with a pawn about to promote to one more.  The crate is NOT consulted: whether it
+/// accepts them is what the completeness oracle decides.  `stm_heavy` = the heavy side is to move.
+pub fn material_extreme(rng: &mut Rng) -> BD {
+    for _ in 0..60 {
+        let mut d = BD::empty();
+        let white = rng.chance(1, 2);
+        let (h, l) = if white { (Color::White, Color::Black) } else { (Color::Black, Color::White) };
+        let kind = [Piece::Knight, Piece::Bishop, Piece::Rook, Piece::Queen][rng.below(4)];
+        let count = match rng.below(8) { 0 => 9, 1 | 2 | 3 => 10, 4 => 11, 5 => 12, 6 => 15, _ => 9 + rng.below(7) };
+        let hk = rng.below(64);
+        d.sq[hk] = Some((Piece::King, h));
+        let mut placed = 0;
+        let mut tries = 0;
+        while placed < count && tries < 400 {
+            tries += 1;
+            let s = rng.below(64);
+            if d.sq[s].is_none() { d.sq[s] = Some((kind, h)); placed += 1; }
+        }
+        // the rest of the sixteen: a few pawns (one of them often on its seventh rank) and other pieces
+        let mut men = 1 + placed;
+        let seventh = if white { 6 } else { 1 };
+        let last = if white { 7 } else { 0 };
+        if men < 16 && rng.chance(2, 3) {
+            let f = rng.below(8);
+            if d.sq[sqi(seventh, f)].is_none() && d.sq[sqi(last, f)].is_none() { d.sq[sqi(seventh, f)] = Some((Piece::Pawn, h)); men += 1; }
+        }
+        for _ in 0..rng.below(4) {
+            if men >= 16 { break; }
+            let s = rng.below(64);
+            if d.sq[s].is_some() { continue; }
+            let p = [Piece::Pawn, Piece::Knight, Piece::Bishop, Piece::Rook, Piece::Queen][rng.below(5)];
+            if p == Piece::Pawn && (s < 8 || s >= 56) { continue; }
+            d.sq[s] = Some((p, h)); men += 1;
+        }
+        // light side: king and zero to three men
+        let mut lk = rng.below(64);
+        let mut t = 0;
+        while d.sq[lk].is_some() && t < 50 { lk = rng.below(64); t += 1; }
+        if d.sq[lk].is_some() { continue; }
+        d.sq[lk] = Some((Piece::King, l));
+        for _ in 0..rng.below(4) {
+            let s = rng.below(64);
+            if d.sq[s].is_some() { continue; }
+            let p = [Piece::Pawn, Piece::Knight, Piece::Bishop, Piece::Rook, Piece::Queen][rng.below(5)];
+            if p == Piece::Pawn && (s < 8 || s >= 56) { continue; }
+            d.sq[s] = Some((p, l));
+        }
+        d.stm = if rng.chance(1, 2) { h } else { l };
+        // valid iff the king of the side NOT to move is not attacked (and the kings are apart)
+        let (idle, idle_k) = if d.stm == h { (l, lk) } else { (h, hk) };
+        let mover = if idle == h { l } else { h };
+        if bd_attacked(&d, idle_k, mover) { continue; }
+        return d;
+    }
+    BD::empty()
+}
+
 /// (root, forced first moves). `None` when the random draw is not accepted by the crate / not valid.
 pub fn special_scenario(rng: &mut Rng) -> Option<(Board, Vec<ChessMove>)> {
-    let kind = rng.below(10);
+    let kind = rng.below(12);
+    if kind >= 10 {
+        // extreme material with the heavy side to move (often with a pawn about to promote to one more)
+        let mut d = material_extreme(rng);
+        for _ in 0..6 { if d.men() >= 2 { break; } d = material_extreme(rng); }
+        let b = guard(|| Board::try_from(&d.builder()).ok()).flatten()?;
+        if !b.is_sane() { return None; }
+        return Some((b, Vec::new()));
+    }
     let mut d = BD::empty();
     let white = rng.chance(1, 2);
     let (c, o) = if white { (Color::White, Color::Black) } else { (Color::Black, Color::White) };
